@@ -504,6 +504,18 @@ func (k msgServer) UpdateConsumer(goCtx context.Context, msg *types.MsgUpdateCon
 		}
 
 		if k.IsConsumerPrelaunched(ctx, consumerId) {
+			// the stored initial height has to match the revision number of the new chain id; otherwise the
+			// initialization parameters could no longer be stored (e.g., when clearing the spawn time after a
+			// failed launch in BeginBlock). If new initialization parameters are provided, they are validated
+			// against the new chain id when they are set below.
+			if msg.InitializationParameters == nil {
+				if initializationParameters, err := k.Keeper.GetConsumerInitializationParameters(ctx, consumerId); err == nil {
+					if err = types.ValidateInitialHeight(initializationParameters.InitialHeight, msg.NewChainId); err != nil {
+						return &resp, errorsmod.Wrapf(types.ErrInvalidMsgUpdateConsumer,
+							"new chain id does not match the initial height of the consumer: %s", err.Error())
+					}
+				}
+			}
 			chainId = msg.NewChainId
 			k.SetConsumerChainId(ctx, consumerId, chainId)
 		} else {
